@@ -97,6 +97,14 @@ void check_instant(const char *what) {
   if (!complete_cache[K_FILE] && !complete_cache[K_BACKUP]) vs_log(EV_INV_FAIL, ioevents, (int64_t)mirror[K_FILE].size());
   (void)what;
 }
+// the job file as of its last completed rewrite: what a crash must not lose
+void dump_committed() {
+  int fd = (int)syscall(SYS_openat, AT_FDCWD, "committed.xml", O_WRONLY | O_CREAT | O_TRUNC, 0644);
+  if (fd < 0) return;
+  size_t off = 0;
+  while (off < committed.size()) { long w = syscall(SYS_write, fd, committed.data() + off, committed.size() - off); if (w <= 0) break; off += (size_t)w; }
+  syscall(SYS_close, fd);
+}
 bool lock_free_for(int pid, int type) {
   for (auto &l : locks)
     if (l.pid != pid && (type == F_WRLCK || l.type == F_WRLCK)) return false;
@@ -136,6 +144,7 @@ static FILE *do_fopen(const char *path, const char *mode) {
   bool trunc = strchr(mode, 'w') != nullptr;
   if (trunc && io::crash_at == ev) {  // crash right before the truncation
     vs_log(EV_CRASH, ev, 0);
+    io::dump_committed();
     _exit(0);
   }
   FILE *f = real_fopen64(path, mode);
@@ -183,6 +192,7 @@ static ssize_t watched_write(int fd, const char *buf, size_t n) {
       off += (size_t)w;
     }
     vs_log(EV_CRASH, ev, (int64_t)b);
+    io::dump_committed();
     _exit(0);
   }
   if (io::scan_mode) {
@@ -602,6 +612,15 @@ static Verdict judge_crash_and_recover(const Cfg &c, vsx::Explorer &ex, const vs
   bool okb = load_view("e/jobs.xml~", b, e2) && complete_view(b, c.jobs);
   if (!okf && !okb) { bad("crash-no-complete-copy", "after the crash neither jobs.xml (" + e1 + ") nor jobs.xml~ (" + e2 + ") is a complete job list"); return v; }
   const std::vector<JobView> &g = okf ? f : b;
+  // results that had reached the job file in a completed rewrite before the crash must be in the surviving copy
+  {
+    std::vector<JobView> cm;
+    std::string e3;
+    if (load_view("e/committed.xml", cm, e3) && complete_view(cm, c.jobs))
+      for (auto &j : cm)
+        if (j.status == "COMPLETE" && (g[j.id - 1].status != "COMPLETE" || g[j.id - 1].output != j.output))
+          bad("crash-lost-committed-result", "job " + std::to_string(j.id) + " was COMPLETE in the job file before the crash but the surviving copy (" + (okf ? "job file" : "backup") + ") says " + g[j.id - 1].status);
+  }
   if (!okf) raw_write_file("e/jobs.xml", raw_read_file("e/jobs.xml~"));  // what the user does: restore the backup
   std::string deadhost = hostname_str() + ":" + std::to_string(PID0);
   // jobs in flight at the crash: ASSIGNED to the dead process in the surviving copy
